@@ -231,7 +231,12 @@ func c16Site(o *origin, seedv int64, idx, n int, hostBase int) []string {
 				assets = append(assets, uri+".png")
 			}
 		}
-		o.set(h, "/p.html", &route{Status: 200, Headers: map[string]string{"Content-Type": "text/html"}, Body: htmlPage("p", assets, nil), Tag: "page"})
+		if rng.Intn(3) == 0 {
+			// a host that answers every request with an error (its limiter bucket only ever sees failures)
+			o.set(h, "/p.html", &route{Status: pick2(rng, 503, 429), Body: []byte("down"), Tag: "failing-host"})
+		} else {
+			o.set(h, "/p.html", &route{Status: 200, Headers: map[string]string{"Content-Type": "text/html"}, Body: htmlPage("p", assets, nil), Tag: "page"})
+		}
 		seeds = append(seeds, "http://"+h+"/p.html")
 	}
 	return seeds
